@@ -96,9 +96,28 @@ def extra_fields(text):
     return out
 
 
+def node_key_bits(text):
+    """width of the `key` member of node_t as declared (a narrower unsigned type truncates what is stored into it)"""
+    m = re.search(r'typedef\s+struct\s+node\s*\{([^}]*)\}\s*node_t\s*;', text)
+    if not m:
+        raise CHelperError('node_t declaration not found')
+    body = re.sub(r'//[^\n]*', ' ', m.group(1))
+    for decl in body.split(';'):
+        mm = re.match(r'^\s*([\w\s]+?)\s*(\**)\s*(\w+)\s*$', decl)
+        if mm and mm.group(3) == 'key':
+            ty = ' '.join(mm.group(1).split())
+            widths = {'uint64_t': 64, 'uint32_t': 32, 'uint16_t': 16, 'uint8_t': 8, 'unsigned': 32, 'unsigned int': 32,
+                      'unsigned long': 64, 'unsigned long long': 64, 'size_t': 64}
+            if mm.group(2) or ty not in widths:
+                raise CHelperError('node_t member %r has a type outside the recognised subset' % decl.strip())
+            return widths[ty]
+    raise CHelperError('node_t has no member named key')
+
+
 class Interp(object):
-    def __init__(self, funcs, limbs, size=256, unroll=4, fields=None):
+    def __init__(self, funcs, limbs, size=256, unroll=4, fields=None, keybits=64):
         self.funcs, self.limbs, self.size, self.unroll = funcs, limbs, size, unroll
+        self.keybits = keybits
         self.hf = {}
         for name, kind in sorted((fields or {}).items()):
             # malloc'ed and not yet assigned: an arbitrary value
@@ -453,7 +472,8 @@ class Interp(object):
             ptr = env[lhs[0]]
             f = lhs[2]
             if f == 'key':
-                self.key = z3.If(guard, z3.Store(self.key, ptr[1], v[1]), self.key)
+                kv = v[1] if self.keybits == 64 else z3.ZeroExt(64 - self.keybits, z3.Extract(self.keybits - 1, 0, v[1]))
+                self.key = z3.If(guard, z3.Store(self.key, ptr[1], kv), self.key)
             elif f == 'next':
                 nv = v[1] if v[0] != 'null' else z3.BitVecVal(0, 8)
                 self.next = z3.If(guard, z3.Store(self.next, ptr[1], nv), self.next)
@@ -489,7 +509,7 @@ def map_obligation(text, limbs, nins=3, unroll=4, keybits=16, valbits=None):
     for need in ('create_hash_map', 'hash_code', 'insert', 'lookup'):
         if need not in funcs:
             raise CHelperError('helper function %r not found' % need)
-    it = Interp(funcs, limbs, unroll=unroll, fields=extra_fields(text))
+    it = Interp(funcs, limbs, unroll=unroll, fields=extra_fields(text), keybits=node_key_bits(text))
     W = 64 * limbs
     ks = [z3.BitVec('hk%d' % i, 64) for i in range(nins)]
     vs = [z3.BitVec('hv%d' % i, W) for i in range(nins)]
@@ -500,7 +520,7 @@ def map_obligation(text, limbs, nins=3, unroll=4, keybits=16, valbits=None):
         it.call('insert', [('h', None), ('key', k), ('val', v)])
         model = z3.Store(model, k, v)
         goals.append(it.call('lookup', [('h', None), ('key', qs[i + 1])]) == z3.Select(model, qs[i + 1]))
-    assume = [z3.ULT(k, z3.BitVecVal(1 << keybits, 64)) for k in ks + qs]
+    assume = [z3.ULT(k, z3.BitVecVal(1 << keybits, 64)) for k in ks + qs] if keybits < 64 else []
     if valbits is not None and valbits < W:
         # the words the generated code can pass are bitwidth-limited
         assume += [z3.ULT(v, z3.BitVecVal(1 << valbits, W)) for v in vs]
